@@ -61,7 +61,7 @@ func calleeNames(c *ssa.CallCommon) []string {
 		return []string{"builtin:" + bi.Name()}
 	}
 	if c.IsInvoke() {
-		out = append(out, "invoke:"+c.Method.Name())
+		out = append(out, "invoke:"+c.Method.Name(), "invoke."+c.Method.Name())
 		out = append(out, typeShort(c.Value.Type())+"."+c.Method.Name())
 		if n, ok := types.Unalias(c.Value.Type()).(*types.Named); ok {
 			out = append(out, n.Obj().Name()+"."+c.Method.Name())
